@@ -9,8 +9,8 @@ import (
 	"strings"
 
 	jsonpatch "github.com/evanphx/json-patch"
-	apimeta "k8s.io/apimachinery/pkg/api/meta"
 	kerrors "k8s.io/apimachinery/pkg/api/errors"
+	apimeta "k8s.io/apimachinery/pkg/api/meta"
 	metav1 "k8s.io/apimachinery/pkg/apis/meta/v1"
 	"k8s.io/apimachinery/pkg/apis/meta/v1/unstructured"
 	"k8s.io/apimachinery/pkg/runtime"
@@ -81,13 +81,13 @@ func (c *Client) Calls() int { return c.p.idx }
 func (c *Client) Dead() bool { return c.p.dead }
 
 type result struct {
-	err      error
-	outcome  string
-	pre      *unstructured.Unstructured
-	post     *unstructured.Unstructured
-	applied  bool
-	noop     bool
-	removed  bool
+	err     error
+	outcome string
+	pre     *unstructured.Unstructured
+	post    *unstructured.Unstructured
+	applied bool
+	noop    bool
+	removed bool
 }
 
 func (c *Client) run(verb, sub string, k Key, dry, write bool, mgr string, effect func() result, body ...*unstructured.Unstructured) error {
@@ -134,6 +134,11 @@ func (c *Client) run(verb, sub string, k Key, dry, write bool, mgr string, effec
 		c.p.dead = true
 		ev.Outcome, ev.Injected = "dropped", dec.String()
 		return finish(ErrCrashed)
+	case CacheMiss:
+		if !write {
+			ev.Outcome, ev.Injected = "notfound", dec.String()
+			return finish(kerrors.NewNotFound(gr(k), k.Name))
+		}
 	}
 	s.mu.Lock()
 	r := effect()
@@ -409,6 +414,20 @@ func stripTimes(u *unstructured.Unstructured) map[string]any {
 	return c.Object
 }
 
+// noGeneration: built-in kinds for which the API server keeps no metadata.generation (it stays 0 however often
+// the object is edited) - a controller must not use it to detect their changes.
+var noGeneration = map[schema.GroupKind]bool{
+	{Group: "rbac.authorization.k8s.io", Kind: "ClusterRole"}:        true,
+	{Group: "rbac.authorization.k8s.io", Kind: "ClusterRoleBinding"}: true,
+	{Group: "rbac.authorization.k8s.io", Kind: "Role"}:               true,
+	{Group: "rbac.authorization.k8s.io", Kind: "RoleBinding"}:        true,
+	{Group: "", Kind: "Secret"}:                                      true,
+	{Group: "", Kind: "ConfigMap"}:                                   true,
+	{Group: "", Kind: "ServiceAccount"}:                              true,
+	{Group: "", Kind: "Service"}:                                     true,
+	{Group: "", Kind: "Namespace"}:                                   true,
+}
+
 func sameContent(a, b *unstructured.Unstructured) bool {
 	return reflect.DeepEqual(stripTimes(a), stripTimes(b))
 }
@@ -435,7 +454,7 @@ func (s *Server) commit(k Key, live, n *unstructured.Unstructured, dry bool) res
 		if sameContent(live, n) {
 			return result{pre: live.DeepCopy(), post: live.DeepCopy(), noop: true}
 		}
-		if !reflect.DeepEqual(specOf(live), specOf(n)) {
+		if !reflect.DeepEqual(specOf(live), specOf(n)) && !noGeneration[k.GK()] {
 			n.SetGeneration(live.GetGeneration() + 1)
 		}
 		if n.GetDeletionTimestamp() != nil && len(n.GetFinalizers()) == 0 {
@@ -509,6 +528,9 @@ func (c *Client) Create(_ context.Context, obj client.Object, opts ...client.Cre
 		u.SetUID(s.nextUID())
 		u.SetCreationTimestamp(metav1.NewTime(s.tick()))
 		u.SetGeneration(1)
+		if noGeneration[k.GK()] {
+			u.SetGeneration(0)
+		}
 		u.SetDeletionTimestamp(nil)
 		if err := s.validate("create", k, u); err != nil {
 			return result{err: err}
@@ -684,6 +706,9 @@ func (c *Client) apply(sub string, k Key, gvk schema.GroupVersionKind, data []by
 		n.SetUID(s.nextUID())
 		n.SetCreationTimestamp(metav1.NewTime(s.tick()))
 		n.SetGeneration(1)
+		if noGeneration[k.GK()] {
+			n.SetGeneration(0)
+		}
 		if err := s.validate("patch-apply", k, n); err != nil {
 			return result{err: err}
 		}
@@ -837,7 +862,9 @@ type subWriter struct {
 func (c *Client) Status() client.SubResourceWriter { return &subWriter{c: c, sub: "status"} }
 
 // SubResource implements client.SubResourceClientConstructor.
-func (c *Client) SubResource(sub string) client.SubResourceClient { return &subClient{subWriter{c: c, sub: sub}} }
+func (c *Client) SubResource(sub string) client.SubResourceClient {
+	return &subClient{subWriter{c: c, sub: sub}}
+}
 
 type subClient struct{ subWriter }
 
